@@ -5,6 +5,7 @@ use serde_json::{json, Value};
 use crate::props::mrp_oracles::*;
 use crate::props::{Family, PropertyDef};
 use crate::runner::{Outcome, Scenario};
+use crate::tape;
 use crate::worlds::mrp_drive::*;
 
 #[derive(Clone, Copy, PartialEq, Eq)]
@@ -161,6 +162,85 @@ impl Scenario for MrpScenario {
     }
 }
 
+
+/// C10: a node which runs no responder at all (a pure initiator) receives unsolicited messages,
+/// reliable ones and ones without the reliability flag. Nobody ever accepts those exchanges; the
+/// transport has to drop them after the accept time-out, or the single RX slot stays occupied and
+/// the node's own exchanges never see an answer again.
+pub struct PureInitiator;
+
+impl Scenario for PureInitiator {
+    fn property(&self) -> &'static str {
+        "C10"
+    }
+
+    fn name(&self) -> &'static str {
+        "pure-initiator-gets-unsolicited-messages"
+    }
+
+    fn run(&self, seed: u64) -> Outcome {
+        use crate::worlds::mrp::{Kind, Planted, Step, Workload};
+        let mut cfg = gen_cfg(seed, &MrpKnobs::fault_free());
+        // One session, node 1 without handlers
+        cfg.planted.truncate(1);
+        cfg.planted[0] = Planted { kind: if tape::biased(2, 300) == 1 { Kind::Pase } else { Kind::Case }, ..cfg.planted[0].clone() };
+        cfg.handlers = vec![2, 0];
+        cfg.settle = false;
+        let mut id = 1u16;
+        let mut unsolicited = Vec::new();
+        let n = 1 + tape::choose(3);
+        for _ in 0..n {
+            let unreliable = tape::biased(2, 500) == 1;
+            unsolicited.push(Workload {
+                id,
+                planted: 0,
+                start_delay_ms: tape::choose(8) * 100,
+                script: vec![Step(if unreliable { Step::UNRELIABLE } else { 0 })],
+                final_ack: false,
+            });
+            id += 1;
+        }
+        // Node 1's own requests: well after the accept time-out (1 s) of the last unsolicited message
+        let mut own = Vec::new();
+        for k in 0..(1 + tape::choose(2)) {
+            own.push(Workload {
+                id,
+                planted: 0,
+                start_delay_ms: if k == 0 { 4_000 + tape::choose(10) * 100 } else { 200 },
+                script: vec![Step(0), Step(Step::BY_RESPONDER)],
+                final_ack: true,
+            });
+            id += 1;
+        }
+        let own_ids: Vec<u16> = own.iter().map(|w| w.id).collect();
+        cfg.workloads = vec![vec![unsolicited], vec![own]];
+        cfg.limit_us = 120 * crate::kernel::SEC;
+        let run = drive(seed, cfg);
+        let mut out = Outcome::default();
+        common_counters(&run, &mut out);
+        check_c10(&run, &mut out);
+        for wl in own_ids {
+            let done = run.log.iter().find_map(|e| match &e.kind {
+                crate::worlds::mrp::AppKind::Done { result } if e.wl == wl && e.initiator => Some(*result),
+                _ => None,
+            });
+            out.count("own_requests_of_the_pure_initiator", 1);
+            if done != Some(crate::worlds::mrp::OK) {
+                out.violate(
+                    "C10-receive-path-wedged",
+                    format!(
+                        "node 1 (no responder) request {wl} ended with {:x?}: unsolicited messages nobody accepts still occupy its receive path {} s after they arrived",
+                        done, 3
+                    ),
+                );
+            }
+        }
+        out.nontrivial = true;
+        out.sample = Some(sample_of(&run));
+        out
+    }
+}
+
 const ASSUMPTIONS: &[&str] = &[
     "harness (executor, network, tape, oracles, tap decoder) is trusted",
     "UDP may lose, duplicate, reorder and delay datagrams but not forge authenticated content",
@@ -216,10 +296,15 @@ pub fn defs() -> Vec<PropertyDef> {
                 scenario: Box::new(MrpScenario {
                     which: Which::C10,
                     name: "dispatch-faults",
-                    knobs: MrpKnobs { settle: true, slow_handlers: true, cancel_handlers: true, allow_both: true, ..MrpKnobs::full() },
+                    knobs: MrpKnobs { settle: true, slow_handlers: true, cancel_handlers: true, allow_both: true, unreliable_permille: 150, ..MrpKnobs::full() },
                 }),
                 weight: 6,
                 fault_free: false,
+            },
+            Family {
+                scenario: Box::new(PureInitiator),
+                weight: 1,
+                fault_free: true,
             },
         ],
         rule: "each run = swarm configuration of the mrp world plus handlers that accept late / hold the RX message / are cancelled at a tape-chosen instant, full-duplex steps, followed by a fault-free settle phase, a 5 s quiet window and a probe request per live session; distinct = distinct trace hash; non-trivial = at least one application message received AND at least one fault/cancellation/non-FIFO decision",
